@@ -9,8 +9,9 @@
 
   Histories: any list of kernel events (spawn / exit / reap / tick / **clock step**) and psutil calls
   (Process(pid) at any point, is_running, signals, setters, ppid, **boot_time()**, create_time, ==,
-  hash, process_iter, oneshot() entry/exit, str).  Only hypothesis: the published boot time is never 0
-  (`b0 ≠ 0`, `HistOK`).
+  hash, process_iter, oneshot() entry/exit, str), plus permission changes (the kernel refusing a PID with
+  EPERM / EACCES).  Hypotheses: the published boot time is never 0 (`b0 ≠ 0`) and `/proc/pid/stat` can always be
+  opened (`HistOK`) — what `==` / `is_running()` answer otherwise is characterised at the end of the file.
 
   Objects: `St.ps.objs` holds every `Process` object the history produced — those built by
   `Process(pid)` AND those built and yielded by `process_iter()` (which appends them and returns their
